@@ -35,7 +35,7 @@ class Job:
                  loop_contracts=False, link=(), defines=(), cbmc=(), unwind=None,
                  replace_calls=(), remove_bodies=(), timeout=600, covers=True, bound=None,
                  assumptions=(), replay=None, also=(), safety=True, overlay=None,
-                 nondet_static=False, group=None, config=(), solver=None, case=None, gen=None):
+                 nondet_static=False, group=None, config=(), solver=None, case=None, gen=None, ignore=()):
         self.name = name
         self.prop = prop
         self.kind = kind
@@ -65,6 +65,7 @@ class Job:
         self.solver = solver
         self.case = case                # free-form description of the enumerated case
         self.gen = dict(gen or {})      # generated files (name -> content) placed on the include path
+        self.ignore = list(ignore)      # [(regex on 'name :: description', assumption text)]: obligations not decided, by stated assumption
 
 
 class Result:
@@ -579,6 +580,11 @@ def check_property(prop, jobs, tier, level, explanation, trusted, seed=0, quiet=
             if len(samples) < 6 and mine:
                 samples.append({"job": j.name, "kind": j.kind, "obligation": mine[-1][0], "description": mine[-1][1], "status": mine[-1][2], "case": j.case})
             failed = [o for o in mine if o[2] == "FAILURE"]
+            for (rx, why) in j.ignore:
+                failed = [o for o in failed if not re.search(rx, "%s :: %s" % (o[0], o[1]))]
+            undec = [o for o in mine if o[2] not in ("SUCCESS", "FAILURE")]
+            if undec and not failed:
+                errors.append("%s: %d obligations left undecided by cbmc (status %s) behind an ignored failure" % (j.name, len(undec), undec[0][2]))
             unw = [o for o in failed if ".unwind." in o[0] or ".recursion" in o[0]]
             if unw:
                 errors.append("%s: unwinding bound too small for %s (undecided, not a violation)" % (j.name, ", ".join(sorted(set(o[0] for o in unw)))[:300]))
@@ -667,7 +673,7 @@ def check_property(prop, jobs, tier, level, explanation, trusted, seed=0, quiet=
         # ---- evidence
         assumptions = []
         for j in jobs:
-            for a in j.assumptions:
+            for a in j.assumptions + [why for (rx, why) in j.ignore]:
                 if a not in assumptions:
                     assumptions.append(a)
         for a in trusted:
